@@ -341,3 +341,177 @@ def vc_upsert(prog, ecls='BaseMatching', n_layers=1, obs_ne=0):
         return g
     rep = verify_function(prog, fv, setup, goals, models=K.base_models(), name=f"LatticeColumn.upsert[{ecls},layers={n_layers},obs_ne={obs_ne}]")
     return fv, rep
+
+
+# =============================================================================================== K-obs / K-trans
+def vc_obs_distance(prog):
+    fv = prog.func(K.DIST, 'DistanceMatcher.logprob_obs')
+    st = {}
+
+    def setup(ctx, it):
+        m = K.mk_matcher('DistanceMatcher')
+        ctx.assume(*K.matcher_requires(m))
+        st['m'] = m
+        ctx.assume(R('d') >= 0)
+        return [m, R('d')], {'is_ne': B('is_ne')}
+
+    def goals(ctx, res):
+        m = st['m']
+        val, props = res
+        sig = z3.If(B('is_ne'), m.f['sigma_ne'], m.f['sigma'])
+        return [('obs:formula', to_z3(val) * sig == -(R('d') * R('d'))),
+                ('obs:noise-selection', z3.Or(z3.And(B('is_ne'), to_z3(val) * m.f['sigma_ne'] == -(R('d') * R('d'))),
+                                              z3.And(z3.Not(B('is_ne')), to_z3(val) * m.f['sigma'] == -(R('d') * R('d'))))),
+                ('obs:proper-probability', to_z3(val) <= 0),
+                ('obs:props', b2z(isinstance(props, dict) and set(props) == {'lpe'} and eq(props.get('lpe'), val)))]
+    rep = verify_function(prog, fv, setup, goals, models=K.base_models(), name="DistanceMatcher.logprob_obs")
+    return fv, rep
+
+
+def vc_obs_simple(prog):
+    fv = prog.func(K.SIMPLE, 'SimpleMatcher.logprob_obs')
+    st = {}
+
+    def m_logpdf(it, o, x):
+        # scipy closed form (assumed): halfnorm(scale=s).logpdf(x) = log(sqrt(2/pi)/s) - x^2 / (2 s^2); the constant is the
+        # negative of the matcher's normaliser (log identity for the constructor constants, assumed)
+        s = o.f['scale']
+        q = it.ctx.fresh('sq')
+        it.ctx.assume(q * (2 * s * s) == to_z3(x) * to_z3(x))
+        return o.f['logc'] - q
+
+    def setup(ctx, it):
+        m = K.mk_matcher('SimpleMatcher')
+        for k, li in (('obs_noise_dist', 'obs_noise_logint'), ('obs_noise_dist_ne', 'obs_noise_logint_ne')):
+            m.f[k].f['logc'] = -m.f[li]
+            ctx.assume(m.f[k].f['scale'] > 0)
+        st['m'] = m
+        ctx.assume(R('d') >= 0)
+        return [m, R('d'), None, None, None], {'is_ne': B('is_ne')}
+
+    def goals(ctx, res):
+        m = st['m']
+        val, props = res
+        s = z3.If(B('is_ne'), m.f['obs_noise_dist_ne'].f['scale'], m.f['obs_noise_dist'].f['scale'])
+        return [('obs:formula', to_z3(val) * (2 * s * s) == -(R('d') * R('d'))),
+                ('obs:proper-probability', to_z3(val) <= 0),
+                ('obs:props', b2z(isinstance(props, dict) and len(props) == 0))]
+    models = dict(K.base_models())
+    models[('meth', 'HalfNorm', 'logpdf')] = Model('halfnorm.logpdf', m_logpdf)
+    rep = verify_function(prog, fv, setup, goals, models=models, name="SimpleMatcher.logprob_obs")
+    return fv, rep
+
+
+def _mk_trans_world(family, opt):
+    mcls = 'DistanceMatcher' if family == 'distance' else 'SimpleMatcher'
+    ecls = 'DistanceMatching' if family == 'distance' else 'BaseMatching'
+    matcher = K.mk_matcher(mcls)
+    pp = K.mk_matching('pp', matcher, ecls, edge_m=K.mk_segment('ppm', False, True), edge_o=K.mk_segment('ppo', True), stop=False)
+    prev = K.mk_matching('prev', matcher, ecls, edge_m=K.mk_segment('pm', False, True), edge_o=K.mk_segment('po', True), prev=[pp], stop=False)
+    edge_m = K.mk_segment('m', False, True)
+    edge_o = K.mk_segment('o', opt, True)
+    return matcher, pp, prev, edge_m, edge_o
+
+
+def vc_trans_distance(prog, opt=True, has_pp=True):
+    """K-trans-distance against the documented formula (C02); non-positivity (C17); first-order when avoid_goingback is
+    off (C01/C06): nothing of prev.prev is read."""
+    fv = prog.func(K.DIST, 'DistanceMatcher.logprob_trans')
+    st = {}
+
+    def setup(ctx, it):
+        matcher, pp, prev, edge_m, edge_o = _mk_trans_world('distance', opt)
+        if not has_pp:
+            prev.f['prev'] = SetVal([])
+        ctx.assume(*K.matcher_requires(matcher))
+        ctx.assume(prev.f['d_o'] >= 0, prev.f['d_s'] >= 0)
+        st.update(matcher=matcher, pp=pp, prev=prev, edge_m=edge_m, edge_o=edge_o)
+        return [matcher, prev, edge_m, edge_o], {'is_prev_ne': B('is_prev_ne'), 'is_next_ne': B('is_next_ne')}
+
+    def goals(ctx, res):
+        matcher, pp, prev, em, eo = (st[k] for k in ('matcher', 'pp', 'prev', 'edge_m', 'edge_o'))
+        lp, props = res
+        lp = to_z3(lp)
+        pm = prev.f['edge_m']
+        ev = [e for e in ctx.events if e.kind == 'metric']
+        g = []
+        same_edge = z3.Or(z3.And(pm.f['l1'] == em.f['l1'], pm.f['l2'] == em.f['l2']),
+                          z3.And(pm.f['l1'] == em.f['l2'], pm.f['l2'] == em.f['l1']))
+        connected = pm.f['l2'] == em.f['l1']
+        opi_prev = prev.f['edge_o'].f['p1']
+        opi = eo.f['p1'] if opt else eo.f['_pi']
+        g.append(('trans:only-distance-calls', b2z(all(e.fn == 'distance' for e in ev) and len(ev) in (2, 3))))
+        if not (all(e.fn == 'distance' for e in ev) and len(ev) in (2, 3)):
+            return g
+        g.append(('trans:obs-distance-args', b2z(eq(ev[0].args, (opi_prev, opi)))))
+        if len(ev) == 2:
+            g.append(('trans:direct-state-distance-when-same-or-unconnected', z3.And(z3.Or(same_edge, z3.Not(connected)),
+                                                                                    b2z(eq(ev[1].args, (pm.f['_pi'], em.f['_pi']))))))
+            dx = ev[1].result
+        else:
+            g.append(('trans:through-shared-node-when-connected', z3.And(z3.Not(same_edge), connected,
+                                                                        b2z(eq(ev[1].args, (pm.f['_pi'], pm.f['p2']))),
+                                                                        b2z(eq(ev[2].args, (pm.f['p2'], em.f['_pi']))))))
+            dx = ev[1].result + ev[2].result
+        dz = ev[0].result
+        ne = B('is_next_ne')
+        dz_t = z3.If(ne, dz + prev.f['d_o'], dz)
+        dx_t = z3.If(ne, dx + prev.f['d_s'], dx)
+        beta = z3.If(z3.Or(B('is_prev_ne'), ne), matcher.f['beta_ne'], matcher.f['beta'])
+        ag = matcher.f['avoid_goingback']
+        same_state = z3.And(pm.f['l1'] == em.f['l1'], pm.f['l2'] == em.f['l2'])
+        reverse = z3.And(pm.f['l1'] == em.f['l2'], pm.f['l2'] == em.f['l1'])
+        back_to = z3.And(em.f['l1'] == pp.f['edge_m'].f['l1'], em.f['l2'] == pp.f['edge_m'].f['l2']) if has_pp else z3.BoolVal(False)
+        pen = z3.If(same_state, z3.If(z3.And(ag, em.f['_ti'] < pm.f['_ti']), matcher.f['gobackonedge_factor_log'], 0),
+                    z3.If(reverse, z3.If(ag, matcher.f['gobackonedge_factor_log'], 0),
+                          z3.If(z3.Not(connected), matcher.f['notconnectededges_factor_log'],
+                                z3.If(z3.And(ag, back_to), matcher.f['gobacktoedge_factor_log'], 0))))
+        diff = dz_t - dx_t
+        g += [('trans:formula', (lp - pen) * beta == -(diff * diff)),
+              ('trans:proper-probability', lp <= 0),
+              ('trans:props', b2z(isinstance(props, dict) and set(props) == {'d_o', 'd_s', 'lpt'}) if not isinstance(props, dict) or set(props) != {'d_o', 'd_s', 'lpt'}
+               else z3.And(to_z3(props['d_o']) == dz_t, to_z3(props['d_s']) == dx_t, to_z3(props['lpt']) == lp))]
+        return g
+    rep = verify_function(prog, fv, setup, goals, models=K.base_models(),
+                          name=f"DistanceMatcher.logprob_trans[{'obs' if opt else 'obsseg'},{'pp' if has_pp else 'no-pp'}]")
+    return fv, rep
+
+
+def vc_trans_simple(prog, mpt=False, has_pp=True):
+    fv = prog.func(K.SIMPLE, 'SimpleMatcher.logprob_trans')
+    st = {}
+
+    def setup(ctx, it):
+        matcher, pp, prev, edge_m, edge_o = _mk_trans_world('simple', True)
+        if mpt:
+            edge_m = K.mk_segment('m', True)
+            prev.f['edge_m'] = K.mk_segment('pm', True)
+            pp.f['edge_m'] = K.mk_segment('ppm', True)
+        if not has_pp:
+            prev.f['prev'] = SetVal([])
+        ctx.assume(*K.matcher_requires(matcher))
+        st.update(matcher=matcher, pp=pp, prev=prev, edge_m=edge_m, edge_o=edge_o)
+        return [matcher, prev, edge_m, edge_o], {'is_prev_ne': B('is_prev_ne'), 'is_next_ne': B('is_next_ne')}
+
+    def goals(ctx, res):
+        matcher, pp, prev, em = (st[k] for k in ('matcher', 'pp', 'prev', 'edge_m'))
+        lp, props = res
+        lp = to_z3(lp)
+        pm = prev.f['edge_m']
+        ag = matcher.f['avoid_goingback']
+        if mpt:
+            same_state = pm.f['l1'] == em.f['l1']
+            back_to = (em.f['l1'] == pp.f['edge_m'].f['l1']) if has_pp else z3.BoolVal(False)
+            tiback = z3.BoolVal(False)      # nodes: ti is 0 on both sides
+        else:
+            same_state = z3.And(pm.f['l1'] == em.f['l1'], pm.f['l2'] == em.f['l2'])
+            back_to = z3.And(em.f['l1'] == pp.f['edge_m'].f['l1'], em.f['l2'] == pp.f['edge_m'].f['l2']) if has_pp else z3.BoolVal(False)
+            tiback = em.f['_ti'] < pm.f['_ti']
+        spec = z3.If(same_state, z3.If(z3.And(ag, tiback), matcher.f['gobackonedge_factor_log'], 0),
+                     matcher.f['transition_factor'] + z3.If(z3.And(ag, back_to), matcher.f['gobacktoedge_factor_log'], 0))
+        return [('trans:formula', lp == spec), ('trans:proper-probability', lp <= 0),
+                ('trans:no-geometry', b2z(not any(e.kind == 'metric' for e in ctx.events))),
+                ('trans:props', b2z(isinstance(props, dict) and len(props) == 0))]
+    rep = verify_function(prog, fv, setup, goals, models=K.base_models(),
+                          name=f"SimpleMatcher.logprob_trans[{'node' if mpt else 'edge'},{'pp' if has_pp else 'no-pp'}]")
+    return fv, rep
